@@ -351,7 +351,9 @@ def judge(ctx, prop, r, txt, what, feature=None):
     if r.signal in (9, 15) and not r.san and not (vfcore.assert_key(r.stderr) or vfcore.assert_key(r.stdout)) and not any(o.get('type') == 'violation' for o in r.objs):
         ctx.inconclusive_case('%s was killed from outside (signal %d); the runtime never raises it itself' % (what, r.signal))
         return 'inconclusive', None
-    st = ctx.absorb(r, what, feature, files={'script.txt': txt})
+    aborted = any('AddressSanitizer' in b for b in r.san) or bool(vfcore.assert_key(r.stderr) or vfcore.assert_key(r.stdout))
+    st = ctx.absorb(r, what, feature, expect_objs=not aborted, files={'script.txt': txt})
+    if aborted and st == 'ok': st = 'known'      # the abort was routed to a listed finding; there is no summary to expect
     if foreign:
         ctx.add_cov('foreign_oracle_hits', len(foreign))
         try:        # keep the witness for the owner of the other property
@@ -437,7 +439,7 @@ def pick_cfg(rng, ranks=1, thorough=False, nested=False):
     if w: cfg['window'] = w
     if t: cfg['threshold'] = t
     if not w and ranks == 1 and rng.randrange(4) == 0: cfg['late'] = 1     # insert everything of the first round before context_start
-    if cores == 1 and cfg['sched'] in ('ip', 'll', 'llp'):
+    if cores <= 2 and cfg['sched'] in ('ip', 'll', 'llp'):
         cfg['sched'] = rng.choice(['lfq', 'ap', 'gd', 'pbq', 'spq'])      # known finding dtd:stall:writer-again-livelock: kept as a separate low-weight probe
     if nested:
         cfg.pop('window', None); cfg.pop('threshold', None)               # known finding dtd:stall:inserting-task-blocked-by-window: separate probe
